@@ -273,6 +273,16 @@ def p3(ctx, fx, I):
         if set(a) == {"iss", "iat", "exp"}:
             keys = a
     colls = [b for b, t in A.calls() if t.get("name") == "collect" and any(may(k, lambda x: x.kind == "agg" and x.d["agg"].get("kind") == "closure" and x.d["agg"].get("def") in [r.name for r in removes]) for k in av.call_node(b).kids)]
+    if not colls:
+        # the pipeline spelled out as a loop (by hand, or by the view): the removal happens in a loop over the key array
+        rem_calls = [b for b, t in A.calls() if t.get("name") in REMOVERS]
+        for lp in next_loops(A):
+            body = set()
+            for d_ in lp.body_entries:
+                body |= cfg.reachable(A, [d_], removed_blocks=[lp.bb])
+            if any(rb in body for rb in rem_calls):
+                colls.append(lp.bb)
+                removes = removes or [A]
     apps = [b for b, t in A.calls() if t.get("name") in ("append", "extend") and peel(av.call_node(b).kids[0]).kind == "field" and peel(av.call_node(b).kids[0]).d.get("name") == "sd_jwt_payload"]
     if keys is not None and set(keys) == {"iss", "iat", "exp"} and len(keys) == 3 and removes and colls and mark and apps:
         c0, m0, a0 = colls[0], mark[0], apps[0]
